@@ -77,8 +77,26 @@ pub fn execute_mode(script: &Script, mode: Mode, keep_trace: bool) -> Outcome {
     match mode {
         Mode::Plain => execute(script, keep_trace),
         Mode::Garbage => {
-            let base = execute(script, keep_trace);
+            let mut base = execute(script, keep_trace);
             if base.failure.is_some() {
+                // the script fails even without garbage. If *how* it fails depends on the bytes in
+                // the unoccupied slots, the failure is (also) an observation of unoccupied storage.
+                let sig = |o: &Outcome| o.failure.as_ref().map(|f| (f.step, f.msg.clone()));
+                let b0 = sig(&base);
+                for g in [Garbage::X5A, Garbage::Random] {
+                    let mut s = script.clone();
+                    s.garbage = g;
+                    let o = execute(&s, false);
+                    if sig(&o) != b0 {
+                        if let Some(f) = &mut base.failure {
+                            if f.classes & cls::HARNESS == 0 {
+                                f.classes |= cls::GARBAGE;
+                                f.msg = format!("{} [the failure changes with the garbage filling `{}`: unoccupied storage is observed]", f.msg, g.name());
+                            }
+                        }
+                        break;
+                    }
+                }
                 return base;
             }
             let mut r = rng::Rng::new(script.garbage_seed ^ 0x51ed_270b);
